@@ -425,7 +425,7 @@ ROUTES = {
     "fold": ["-Q2", "-ginterp"],      # constant operands only exist after inlining: the level-2 pipeline
     "c": None,
 }
-ROUTE_TIMEOUT = 40
+ROUTE_TIMEOUT = 15
 
 
 def count_bcalls(fm_text, name):
@@ -724,8 +724,10 @@ def spec_jobs(names, rng, cap):
         tups, total = tuples_for(n, argtys, dom, rng, cap)
         extra = [tuple(c) for c in CORPUS.get(n, []) if len(c) == len(argtys) and dom(*c) and tuple(c) not in tups]
         tups = extra + tups
-        for k in range(0, max(1, len(tups)), 400):      # at most 400 statements per generated source
-            jobs.append({"name": n, "tests": spec_tests(n, argtys, rty, fn, tups[k:k + 400]), "spec": n in SPEC,
+        # at most 40 statements per generated source: beyond that the -Q2 inliner runs out of budget, the
+        # operands are no longer constants when the folder runs, and the interpreter evaluates the call instead
+        for k in range(0, max(1, len(tups)), 40):
+            jobs.append({"name": n, "tests": spec_tests(n, argtys, rty, fn, tups[k:k + 40]), "spec": n in SPEC,
                          "direct": True})
     return jobs
 
@@ -814,7 +816,7 @@ def run(rep, tier):
     wall_real = time.time() - t0
     if state["timeouts"]:
         rep.notes.append("the compiler did not terminate within %d s on the generated program(s) for %s (statements were then "
-                         "run one per program); not a C04 matter, reported (corpus/C04/hang_q2.as)" % (ROUTE_TIMEOUT, state["timeouts"][:8]))
+                         "run one per program); not a C04 matter; key hang:-Q2:cfold-peep-pingpong, see corpus/C04/hang_q2.note" % (ROUTE_TIMEOUT, state["timeouts"][:8]))
     if state["route_errors"]:
         rep.notes.append("routes that ended with an error status: %s" % state["route_errors"][:6])
 
